@@ -85,6 +85,85 @@ Fixpoint wf (n : Z) (created : bool) (evs : list ev) : bool :=
   | _ :: t => wf n created t
   end.
 
+(* (re)opening of the punch file of n: punch_open with the file switch on *)
+Definition is_open (n : Z) (e : ev) : bool :=
+  match e with EPunchOpen m true => Z.eqb n m | _ => false end.
+
+(* the suffix of the stream after the last [EPunchOpen n true] (the whole stream if there is none) *)
+Fixpoint after_last_open (n : Z) (evs : list ev) : list ev :=
+  match evs with
+  | [] => []
+  | e :: t => if existsb (is_open n) t then after_last_open n t
+              else if is_open n e then t else e :: t
+  end.
+
+(* nothing was offered to the sinks of n before the last (re)opening of its file *)
+Definition no_reopen (n : Z) (evs : list ev) : Prop :=
+  flat_map (sel_chunks n) evs = flat_map (sel_chunks n) (after_last_open n evs).
+
+Lemma is_open_true : forall n e, is_open n e = true -> e = EPunchOpen n true.
+Proof.
+  intros n e H. destruct e as [on c|on c|c stop oon lon|c oon lon|m on fopen c|m on fopen name v c|m pending|m|m opened];
+    simpl in H; try discriminate H.
+  destruct opened; [|discriminate H]. apply Z.eqb_eq in H. subst m. reflexivity.
+Qed.
+
+Lemma is_open_no_chunk : forall n e, is_open n e = true -> self_chunks n e = [].
+Proof. intros n e H. rewrite (is_open_true n e H). reflexivity. Qed.
+
+(** characterisation of [after_last_open] *)
+Lemma after_last_open_none : forall n evs,
+  existsb (is_open n) evs = false -> after_last_open n evs = evs.
+Proof.
+  intros n evs. induction evs as [|e t IH]; intros H; simpl in *.
+  - reflexivity.
+  - apply orb_false_iff in H. destruct H as [He Ht]. rewrite Ht, He. reflexivity.
+Qed.
+
+Lemma after_last_open_app : forall n evs1 evs2,
+  after_last_open n (evs1 ++ EPunchOpen n true :: evs2) = after_last_open n (EPunchOpen n true :: evs2).
+Proof.
+  intros n evs1 evs2. induction evs1 as [|e t IH].
+  - reflexivity.
+  - change ((e :: t) ++ EPunchOpen n true :: evs2) with (e :: (t ++ EPunchOpen n true :: evs2)).
+    cbn [after_last_open].
+    assert (Hex : existsb (is_open n) (t ++ EPunchOpen n true :: evs2) = true).
+    { rewrite existsb_app. simpl. rewrite Z.eqb_refl, orb_true_r. reflexivity. }
+    rewrite Hex. exact IH.
+Qed.
+
+Lemma after_last_open_last : forall n evs1 evs2, existsb (is_open n) evs2 = false ->
+  after_last_open n (evs1 ++ EPunchOpen n true :: evs2) = evs2.
+Proof.
+  intros n evs1 evs2 H. rewrite after_last_open_app. simpl. rewrite H, Z.eqb_refl. reflexivity.
+Qed.
+
+Lemma after_last_open_suffix : forall n evs, exists pre, evs = pre ++ after_last_open n evs.
+Proof.
+  intros n evs. induction evs as [|e t IH]; simpl.
+  - exists []. reflexivity.
+  - destruct (existsb (is_open n) t).
+    + destruct IH as [pre Hpre]. exists (e :: pre). simpl. rewrite <- Hpre. reflexivity.
+    + destruct (is_open n e).
+      * exists [e]. reflexivity.
+      * exists []. reflexivity.
+Qed.
+
+Lemma after_last_open_no_open : forall n evs, existsb (is_open n) (after_last_open n evs) = false.
+Proof.
+  intros n evs. induction evs as [|e t IH]; simpl.
+  - reflexivity.
+  - destruct (existsb (is_open n) t) eqn:Ht.
+    + exact IH.
+    + destruct (is_open n e) eqn:He; simpl; [exact Ht|rewrite He, Ht; reflexivity].
+Qed.
+
+Lemma after_last_open_In : forall n evs e, In e (after_last_open n evs) -> In e evs.
+Proof.
+  intros n evs e Hin. destruct (after_last_open_suffix n evs) as [pre Hpre].
+  rewrite Hpre. apply in_or_app. right. exact Hin.
+Qed.
+
 (** * Generic fold lemma: a sink that grows by [ch e] at every event *)
 
 Lemma fold_sink : forall (B : Type) (proj : sinks -> list B) (en : bool) (ch : ev -> list B) sw,
@@ -105,7 +184,7 @@ Lemma out_s_step : forall sw k e,
   out_s (route sw k e) = out_s k ++ (if OutputStringOn sw then out_chunks e else []).
 Proof.
   intros sw k e.
-  destruct e as [on c|on c|c stop oon lon|c oon lon|n on fopen c|n on fopen name v c|n pending|n]; simpl.
+  destruct e as [on c|on c|c stop oon lon|c oon lon|n on fopen c|n on fopen name v c|n pending|n|n opened]; simpl.
   - destruct (OutputStringOn sw), on; simpl; rewrite ?app_nil_r; reflexivity.
   - destruct (OutputStringOn sw), on; simpl; rewrite ?app_nil_r; reflexivity.
   - destruct (OutputStringOn sw); rewrite ?app_nil_r; reflexivity.
@@ -114,13 +193,14 @@ Proof.
   - destruct (OutputStringOn sw), on; simpl; rewrite ?app_nil_r; reflexivity.
   - destruct (lookup n (tables k)); destruct (OutputStringOn sw); simpl; rewrite ?app_nil_r; reflexivity.
   - destruct (lookup n (tables k)); destruct (OutputStringOn sw); simpl; rewrite ?app_nil_r; reflexivity.
+  - destruct opened; destruct (OutputStringOn sw); simpl; rewrite ?app_nil_r; reflexivity.
 Qed.
 
 Lemma out_f_step : forall sw k e,
   out_f (route sw k e) = out_f k ++ (if OutputFileOn sw then out_chunks e else []).
 Proof.
   intros sw k e.
-  destruct e as [on c|on c|c stop oon lon|c oon lon|n on fopen c|n on fopen name v c|n pending|n]; simpl.
+  destruct e as [on c|on c|c stop oon lon|c oon lon|n on fopen c|n on fopen name v c|n pending|n|n opened]; simpl.
   - destruct (OutputFileOn sw), on; simpl; rewrite ?app_nil_r; reflexivity.
   - destruct (OutputFileOn sw), on; simpl; rewrite ?app_nil_r; reflexivity.
   - destruct (OutputFileOn sw); rewrite ?app_nil_r; reflexivity.
@@ -129,13 +209,14 @@ Proof.
   - destruct (OutputFileOn sw), on; simpl; rewrite ?app_nil_r; reflexivity.
   - destruct (lookup n (tables k)); destruct (OutputFileOn sw); simpl; rewrite ?app_nil_r; reflexivity.
   - destruct (lookup n (tables k)); destruct (OutputFileOn sw); simpl; rewrite ?app_nil_r; reflexivity.
+  - destruct opened; destruct (OutputFileOn sw); simpl; rewrite ?app_nil_r; reflexivity.
 Qed.
 
 Lemma log_s_step : forall sw k e,
   log_s (route sw k e) = log_s k ++ (if LogStringOn sw then log_chunks e else []).
 Proof.
   intros sw k e.
-  destruct e as [on c|on c|c stop oon lon|c oon lon|n on fopen c|n on fopen name v c|n pending|n]; simpl.
+  destruct e as [on c|on c|c stop oon lon|c oon lon|n on fopen c|n on fopen name v c|n pending|n|n opened]; simpl.
   - destruct (LogStringOn sw), on; simpl; rewrite ?app_nil_r; reflexivity.
   - destruct (LogStringOn sw), on; simpl; rewrite ?app_nil_r; reflexivity.
   - destruct (LogStringOn sw); rewrite ?app_nil_r; reflexivity.
@@ -144,13 +225,14 @@ Proof.
   - destruct (LogStringOn sw), on; simpl; rewrite ?app_nil_r; reflexivity.
   - destruct (lookup n (tables k)); destruct (LogStringOn sw); simpl; rewrite ?app_nil_r; reflexivity.
   - destruct (lookup n (tables k)); destruct (LogStringOn sw); simpl; rewrite ?app_nil_r; reflexivity.
+  - destruct opened; destruct (LogStringOn sw); simpl; rewrite ?app_nil_r; reflexivity.
 Qed.
 
 Lemma log_f_step : forall sw k e,
   log_f (route sw k e) = log_f k ++ (if LogFileOn sw then log_chunks e else []).
 Proof.
   intros sw k e.
-  destruct e as [on c|on c|c stop oon lon|c oon lon|n on fopen c|n on fopen name v c|n pending|n]; simpl.
+  destruct e as [on c|on c|c stop oon lon|c oon lon|n on fopen c|n on fopen name v c|n pending|n|n opened]; simpl.
   - destruct (LogFileOn sw), on; simpl; rewrite ?app_nil_r; reflexivity.
   - destruct (LogFileOn sw), on; simpl; rewrite ?app_nil_r; reflexivity.
   - destruct (LogFileOn sw); rewrite ?app_nil_r; reflexivity.
@@ -159,13 +241,14 @@ Proof.
   - destruct (LogFileOn sw), on; simpl; rewrite ?app_nil_r; reflexivity.
   - destruct (lookup n (tables k)); destruct (LogFileOn sw); simpl; rewrite ?app_nil_r; reflexivity.
   - destruct (lookup n (tables k)); destruct (LogFileOn sw); simpl; rewrite ?app_nil_r; reflexivity.
+  - destruct opened; destruct (LogFileOn sw); simpl; rewrite ?app_nil_r; reflexivity.
 Qed.
 
 Lemma err_s_step : forall sw k e,
   err_s (route sw k e) = err_s k ++ (if ErrorStringOn sw && ErrorOn sw then err_chunks e else []).
 Proof.
   intros sw k e.
-  destruct e as [on c|on c|c stop oon lon|c oon lon|n on fopen c|n on fopen name v c|n pending|n]; simpl.
+  destruct e as [on c|on c|c stop oon lon|c oon lon|n on fopen c|n on fopen name v c|n pending|n|n opened]; simpl.
   - destruct (ErrorStringOn sw && ErrorOn sw); simpl; rewrite ?app_nil_r; reflexivity.
   - destruct (ErrorStringOn sw && ErrorOn sw); simpl; rewrite ?app_nil_r; reflexivity.
   - destruct (ErrorStringOn sw && ErrorOn sw); simpl; rewrite ?app_nil_r; reflexivity.
@@ -174,13 +257,14 @@ Proof.
   - destruct (ErrorStringOn sw && ErrorOn sw); simpl; rewrite ?app_nil_r; reflexivity.
   - destruct (lookup n (tables k)); destruct (ErrorStringOn sw && ErrorOn sw); simpl; rewrite ?app_nil_r; reflexivity.
   - destruct (lookup n (tables k)); destruct (ErrorStringOn sw && ErrorOn sw); simpl; rewrite ?app_nil_r; reflexivity.
+  - destruct opened; destruct (ErrorStringOn sw && ErrorOn sw); simpl; rewrite ?app_nil_r; reflexivity.
 Qed.
 
 Lemma err_f_step : forall sw k e,
   err_f (route sw k e) = err_f k ++ (if ErrorFileOn sw && ErrorOn sw then errfile_chunks e else []).
 Proof.
   intros sw k e.
-  destruct e as [on c|on c|c stop oon lon|c oon lon|n on fopen c|n on fopen name v c|n pending|n]; simpl.
+  destruct e as [on c|on c|c stop oon lon|c oon lon|n on fopen c|n on fopen name v c|n pending|n|n opened]; simpl.
   - destruct (ErrorFileOn sw && ErrorOn sw); simpl; rewrite ?app_nil_r; reflexivity.
   - destruct (ErrorFileOn sw && ErrorOn sw); simpl; rewrite ?app_nil_r; reflexivity.
   - destruct (ErrorFileOn sw && ErrorOn sw), stop; simpl; rewrite <- ?app_assoc, ?app_nil_r; reflexivity.
@@ -189,13 +273,14 @@ Proof.
   - destruct (ErrorFileOn sw && ErrorOn sw); simpl; rewrite ?app_nil_r; reflexivity.
   - destruct (lookup n (tables k)); destruct (ErrorFileOn sw && ErrorOn sw); simpl; rewrite ?app_nil_r; reflexivity.
   - destruct (lookup n (tables k)); destruct (ErrorFileOn sw && ErrorOn sw); simpl; rewrite ?app_nil_r; reflexivity.
+  - destruct opened; destruct (ErrorFileOn sw && ErrorOn sw); simpl; rewrite ?app_nil_r; reflexivity.
 Qed.
 
 Lemma warn_s_step : forall sw k e,
   warn_s (route sw k e) = warn_s k ++ (if WarningStringOn sw then warn_chunks e else []).
 Proof.
   intros sw k e.
-  destruct e as [on c|on c|c stop oon lon|c oon lon|n on fopen c|n on fopen name v c|n pending|n]; simpl.
+  destruct e as [on c|on c|c stop oon lon|c oon lon|n on fopen c|n on fopen name v c|n pending|n|n opened]; simpl.
   - destruct (WarningStringOn sw); simpl; rewrite ?app_nil_r; reflexivity.
   - destruct (WarningStringOn sw); simpl; rewrite ?app_nil_r; reflexivity.
   - destruct (WarningStringOn sw); simpl; rewrite ?app_nil_r; reflexivity.
@@ -204,6 +289,7 @@ Proof.
   - destruct (WarningStringOn sw); simpl; rewrite ?app_nil_r; reflexivity.
   - destruct (lookup n (tables k)); destruct (WarningStringOn sw); simpl; rewrite ?app_nil_r; reflexivity.
   - destruct (lookup n (tables k)); destruct (WarningStringOn sw); simpl; rewrite ?app_nil_r; reflexivity.
+  - destruct opened; destruct (WarningStringOn sw); simpl; rewrite ?app_nil_r; reflexivity.
 Qed.
 
 (** string / file of user number [n] after appending [c] to the entry of [m] *)
@@ -221,7 +307,7 @@ Lemma sel_string_step : forall sw n k e,
   sel_string chunk k n ++ (if SelStringOn sw n then sel_chunks n e else []).
 Proof.
   intros sw n k e. unfold sel_string.
-  destruct e as [on c|on c|c stop oon lon|c oon lon|m on fopen c|m on fopen name v c|m pending|m]; simpl.
+  destruct e as [on c|on c|c stop oon lon|c oon lon|m on fopen c|m on fopen name v c|m pending|m|m opened]; simpl.
   - destruct (SelStringOn sw n); rewrite app_nil_r; reflexivity.
   - destruct (SelStringOn sw n); rewrite app_nil_r; reflexivity.
   - destruct (SelStringOn sw n); rewrite app_nil_r; reflexivity.
@@ -253,18 +339,41 @@ Proof.
       - subst m. rewrite lookup_update_same. destruct (lookup n (sel_s k)); reflexivity.
       - rewrite lookup_update_other by exact E. reflexivity. }
     rewrite Hsame. destruct (SelStringOn sw n); rewrite app_nil_r; reflexivity.
+  - destruct opened; destruct (SelStringOn sw n); simpl; rewrite app_nil_r; reflexivity.
 Qed.
 
+(** the punch file of [n] is truncated by [EPunchOpen n true] (a fresh ofstream replaces the stream) *)
 Lemma sel_file_step : forall sw n k e,
-  sel_file chunk (route sw k e) n = sel_file chunk k n ++ (if true then self_chunks n e else []).
+  sel_file chunk (route sw k e) n =
+  (if is_open n e then [] else sel_file chunk k n) ++ self_chunks n e.
 Proof.
   intros sw n k e. unfold sel_file.
-  destruct e as [on c|on c|c stop oon lon|c oon lon|m on fopen c|m on fopen name v c|m pending|m]; simpl;
+  destruct e as [on c|on c|c stop oon lon|c oon lon|m on fopen c|m on fopen name v c|m pending|m|m opened]; simpl;
     try (rewrite app_nil_r; reflexivity).
   - destruct fopen, on; simpl; rewrite ?app_nil_r; try reflexivity. apply sel_lookup_app.
   - destruct fopen, on; simpl; rewrite ?app_nil_r; try reflexivity. apply sel_lookup_app.
   - destruct (lookup m (tables k)); simpl; rewrite app_nil_r; reflexivity.
   - destruct (lookup m (tables k)); simpl; rewrite app_nil_r; reflexivity.
+  - destruct opened; simpl; [|rewrite app_nil_r; reflexivity].
+    destruct (Z.eqb_spec n m) as [E|E].
+    + subst m. rewrite lookup_update_same. reflexivity.
+    + rewrite lookup_update_other by exact E. rewrite app_nil_r. reflexivity.
+Qed.
+
+Lemma sel_file_fold : forall sw n evs k,
+  sel_file chunk (fold_left (route sw) evs k) n =
+  (if existsb (is_open n) evs then [] else sel_file chunk k n) ++
+  flat_map (self_chunks n) (after_last_open n evs).
+Proof.
+  intros sw n evs. induction evs as [|e t IH]; intros k; simpl.
+  - rewrite app_nil_r. reflexivity.
+  - rewrite IH, sel_file_step.
+    destruct (existsb (is_open n) t) eqn:Ht.
+    + rewrite orb_true_r. reflexivity.
+    + rewrite orb_false_r, (after_last_open_none n t Ht).
+      destruct (is_open n e) eqn:He; simpl.
+      * rewrite (is_open_no_chunk n e He). reflexivity.
+      * rewrite app_assoc. reflexivity.
 Qed.
 
 (** * Sink specifications *)
@@ -328,11 +437,25 @@ Proof.
 Qed.
 
 Theorem sel_file_spec : forall sw evs n,
-  sel_file chunk (consume sw evs) n = flat_map (self_chunks n) evs.
+  sel_file chunk (consume sw evs) n = flat_map (self_chunks n) (after_last_open n evs).
 Proof.
   intros sw evs n. unfold Route.consume.
-  rewrite (fold_sink _ (fun k => sel_file chunk k n) true (self_chunks n) sw (sel_file_step sw n)).
-  reflexivity.
+  rewrite sel_file_fold. destruct (existsb (is_open n) evs); reflexivity.
+Qed.
+
+(* C09: re-opening the punch file of n loses what was written before; the string keeps it *)
+Theorem reopen_truncates : forall sw evs1 evs2 n,
+  sel_file chunk (consume sw (evs1 ++ EPunchOpen n true :: evs2)) n =
+  sel_file chunk (consume sw (EPunchOpen n true :: evs2)) n.
+Proof.
+  intros sw evs1 evs2 n. rewrite !sel_file_spec, after_last_open_app. reflexivity.
+Qed.
+
+Theorem string_survives_reopen : forall sw evs1 evs2 n,
+  sel_string chunk (consume sw (evs1 ++ EPunchOpen n true :: evs2)) n =
+  sel_string chunk (consume sw (evs1 ++ evs2)) n.
+Proof.
+  intros sw evs1 evs2 n. rewrite !sel_string_spec, !flat_map_app. reflexivity.
 Qed.
 
 (** * The table of a user number *)
@@ -365,7 +488,7 @@ Lemma table_step : forall sw n k e created,
   table_of chunk (route sw k e) n = fold_left step (so_ops n e) (table_of chunk k n).
 Proof.
   intros sw n k e created Hinv Hok. unfold table_of.
-  destruct e as [on c|on c|c stop oon lon|c oon lon|m on fopen c|m on fopen name v c|m pending|m];
+  destruct e as [on c|on c|c stop oon lon|c oon lon|m on fopen c|m on fopen name v c|m pending|m|m opened];
     simpl; try reflexivity.
   - destruct (Z.eqb_spec n m) as [E|E].
     + subst m. rewrite lookup_update_same. reflexivity.
@@ -381,6 +504,7 @@ Proof.
     destruct (Z.eqb_spec n m) as [E|E].
     + subst m. rewrite lookup_update_same, Hl. reflexivity.
     + rewrite lookup_update_other by exact E. reflexivity.
+  - destruct opened; reflexivity.
 Qed.
 
 Lemma created_step : forall sw n k e created,
@@ -388,7 +512,7 @@ Lemma created_step : forall sw n k e created,
   (next1 n created e = true -> lookup n (tables (route sw k e)) <> None).
 Proof.
   intros sw n k e created Hinv.
-  destruct e as [on c|on c|c stop oon lon|c oon lon|m on fopen c|m on fopen name v c|m pending|m];
+  destruct e as [on c|on c|c stop oon lon|c oon lon|m on fopen c|m on fopen name v c|m pending|m|m opened];
     simpl; try exact Hinv.
   - intros Hn. destruct (Z.eqb_spec n m) as [E|E].
     + subst m. rewrite lookup_update_same. discriminate.
@@ -406,6 +530,7 @@ Proof.
       destruct (lookup m (tables k)) as [t|] eqn:Hl; simpl.
       * exact (Hinv Hn).
       * rewrite lookup_update_other by exact E. exact (Hinv Hn).
+  - destruct opened; exact Hinv.
 Qed.
 
 Lemma table_fold : forall sw n evs k created,
@@ -444,14 +569,19 @@ Proof.
 Qed.
 
 Corollary file_eq_string_selected : forall sw evs n, SelStringOn sw n = true ->
+  no_reopen n evs ->                                                (* nothing punched before the last (re)opening *)
   (forall e, In e evs -> self_chunks n e = sel_chunks n e) ->       (* punch stream of n open during the run *)
   sel_file chunk (consume sw evs) n = sel_string chunk (consume sw evs) n.
 Proof.
-  intros sw evs n Hs Hopen. rewrite sel_file_spec, sel_string_spec, Hs.
-  induction evs as [|e t IH]; simpl.
+  intros sw evs n Hs Hno Hopen. rewrite sel_file_spec, sel_string_spec, Hs.
+  unfold no_reopen in Hno. rewrite Hno.
+  assert (Hsuf : forall e, In e (after_last_open n evs) -> self_chunks n e = sel_chunks n e).
+  { intros e Hin. apply Hopen. exact (after_last_open_In n evs e Hin). }
+  clear Hno. revert Hsuf. generalize (after_last_open n evs) as l. intros l.
+  induction l as [|e t IH]; intros Hsuf; simpl.
   - reflexivity.
-  - rewrite (Hopen e (or_introl eq_refl)). f_equal.
-    apply IH. intros e' Hin. apply Hopen. right. exact Hin.
+  - rewrite (Hsuf e (or_introl eq_refl)). f_equal.
+    apply IH. intros e' Hin. apply Hsuf. right. exact Hin.
 Qed.
 
 Corollary disabled_sinks_empty : forall sw evs,
@@ -490,7 +620,7 @@ Qed.
 
 Lemma err_chunks_sublist : forall e, sublist (err_chunks e) (errfile_chunks e).
 Proof.
-  intros e. destruct e as [on c|on c|c stop oon lon|c oon lon|m on fopen c|m on fopen name v c|m pending|m];
+  intros e. destruct e as [on c|on c|c stop oon lon|c oon lon|m on fopen c|m on fopen name v c|m pending|m|m opened];
     simpl; try apply sl_nil.
   destruct stop; apply sl_keep; apply sl_nil.
 Qed.
@@ -511,11 +641,12 @@ Lemma tables_route_indep : forall sw1 sw2 k1 k2 e,
   tables k1 = tables k2 -> tables (route sw1 k1 e) = tables (route sw2 k2 e).
 Proof.
   intros sw1 sw2 k1 k2 e Ht.
-  destruct e as [on c|on c|c stop oon lon|c oon lon|m on fopen c|m on fopen name v c|m pending|m];
+  destruct e as [on c|on c|c stop oon lon|c oon lon|m on fopen c|m on fopen name v c|m pending|m|m opened];
     simpl; try exact Ht.
   - rewrite Ht. reflexivity.
   - rewrite Ht. destruct (lookup m (tables k2)); simpl; [reflexivity|exact Ht].
   - rewrite Ht. destruct (lookup m (tables k2)); simpl; [exact Ht|reflexivity].
+  - destruct opened; exact Ht.
 Qed.
 
 Lemma tables_fold_indep : forall sw1 sw2 evs k1 k2,
@@ -576,7 +707,7 @@ Lemma unlines_split_aux : forall p cur,
   (rev_string cur EmptyString ++ p ++ String nl EmptyString)%string.
 Proof.
   intros p. induction p as [|c p IH]; intros cur; simpl.
-  - rewrite Ascii.eqb_refl. simpl. reflexivity.
+  - rewrite ?Ascii.eqb_refl. simpl. reflexivity.
   - destruct (Ascii.eqb_spec c nl) as [E|E].
     + subst c. simpl. rewrite (IH []). simpl. reflexivity.
     + rewrite (IH (c :: cur)). simpl.
@@ -597,7 +728,7 @@ Lemma split_aux_line : forall ln rest cur,
   (rev_string cur EmptyString ++ ln)%string :: split_aux [] rest.
 Proof.
   intros ln rest. induction ln as [|c ln IH]; intros cur Hno; simpl.
-  - rewrite Ascii.eqb_refl, sapp_nil_r. reflexivity.
+  - rewrite ?Ascii.eqb_refl, sapp_nil_r. reflexivity.
   - destruct (Ascii.eqb_spec c nl) as [E|E].
     + exfalso. apply (Hno c); [left; reflexivity|exact E].
     + rewrite (IH (c :: cur)).
@@ -618,7 +749,7 @@ Lemma split_aux_app_nl : forall p b cur,
   split_aux cur (p ++ String nl EmptyString)%string ++ split_aux [] b.
 Proof.
   intros p b. induction p as [|c p IH]; intros cur; simpl.
-  - rewrite Ascii.eqb_refl. reflexivity.
+  - rewrite ?Ascii.eqb_refl. reflexivity.
   - destruct (Ascii.eqb c nl).
     + rewrite (IH []). reflexivity.
     + apply IH.
@@ -641,6 +772,8 @@ Print Assumptions err_file_spec.
 Print Assumptions warn_string_spec.
 Print Assumptions sel_string_spec.
 Print Assumptions sel_file_spec.
+Print Assumptions reopen_truncates.
+Print Assumptions string_survives_reopen.
 Print Assumptions table_spec.
 Print Assumptions file_eq_string_output.
 Print Assumptions file_eq_string_log.
